@@ -5,7 +5,7 @@ CONSTANTS
   MaxErrors = 4
   ErrKinds <- ErrLabels
   KeepHist = TRUE
-  Configs <- AllConfigs
+  Configs <- SimConfigs
   Batches = {1, 2, 3, 4}
   NW = 3
   InitSizes = {0, 1, 3, 4, 6, 9}
